@@ -55,6 +55,8 @@ pub struct Obs {
     pub id_requests: Vec<(u64, String)>,
     /// Mutating store calls that the store refused (fault injection): (ticket, op).
     pub refused: Vec<(u64, StoreOp)>,
+    /// Store reads that the store refused (fault injection): (ticket, lane id).
+    pub read_refused: Vec<(u64, u64)>,
     pub sessions: Vec<Session>,
     pub lanes: Vec<LaneRec>,
     /// How `run_agent_with_store` ended (None: crashed / never finished).
@@ -239,6 +241,7 @@ pub fn run_incarnation(plan: &Plan, base: &State, rng: &mut Rng) -> Obs {
         let n_lanes = plan2.lanes.len();
         let store = RecStore::from_state(base2.clone());
         store.0.lock().fail_from = plan2.store_fails_from;
+        store.0.lock().read_fails_at = plan2.store_read_fails_at;
         let lane_recs: Vec<SharedLane> = (0..n_lanes).map(|_| Arc::new(Mutex::new(LaneRec::default()))).collect();
         let shared = Arc::new(AgentShared { lanes: lane_recs.clone(), returned: Mutex::new(None), init_error: Mutex::new(None) });
         let mut lane_tx = vec![];
@@ -364,6 +367,7 @@ pub fn run_incarnation(plan: &Plan, base: &State, rng: &mut Rng) -> Obs {
         let init_error = shared.init_error.lock().clone();
         let (final_state, log, id_requests) = store.snapshot();
         let refused = store.0.lock().refused.clone();
+        let read_refused = store.0.lock().read_refused.clone();
         Obs {
             plan: plan2,
             base: base2,
@@ -371,6 +375,7 @@ pub fn run_incarnation(plan: &Plan, base: &State, rng: &mut Rng) -> Obs {
             log,
             id_requests,
             refused,
+            read_refused,
             sessions: runner.sessions,
             lanes,
             agent_result,
